@@ -1828,3 +1828,12 @@ MA('C10', 'conjugate KL proximal keeps the copy of the first aliased input',
    'x = x.copy()',
    "if getattr(self, '_buf', None) is None:\n    self._buf = x.copy()\nx = self._buf",
    'KullbackLeibler.convex_conj')
+MA('C12', 'power method tests the stagnation of the raw iterate norm',
+   'odl/operator/oputils.py', 'power_method_opnorm',
+   'if np.isclose(opnorm, opnorm_old, rtol, atol):...',
+   'if np.isclose(x_norm, opnorm_old ** (2 if use_normal else 1), rtol, atol):\n    break\nelse:\n    x /= x_norm',
+   'R4b')
+MA('C12', 'FISTA swaps buffers instead of copying the old iterate',
+   'odl/solvers/nonsmooth/proximal_gradient_solvers.py',
+   'accelerated_proximal_gradient', 'y.assign(x)',
+   'x_old = x\nx = x.space.element()', 'R9')
